@@ -413,6 +413,49 @@ pub fn run(prop: &str, tier: &str, replay: Option<&str>) -> i32 {
         });
         rep.add(sec);
     }
+    // (b2) foreign CAs whose subject carries values outside their string type's rules, or attribute types that are
+    // neighbours of the registered ones: the import refuses the certificate, or what is issued under the imported
+    // parameters names the ORIGINAL subject, byte for byte, as its issuer
+    {
+        let mut cases: Vec<(String, Vec<u8>)> = crate::corpus::off_alphabet_names();
+        cases.extend(crate::corpus::neighbour_type_names());
+        let sec = Section::new("imported-issuers/unusual names", &format!("{} reference-built CA certificates whose subject has a value outside the alphabet / framing of its string type (16 shapes x 4 attribute types, alone and after another attribute) or an attribute type next to a registered one (2.5.4.x.y, 2.5.4.(x+30), 2.5.5.x): imported and used to issue; the leaf's issuer field is the CA's subject byte for byte", cases.len()));
+        run::sweep_cases(&sec, &cases, &|c| c.0.clone(), &|c| {
+            let mut out = Outcome::default();
+            let ca_der = crate::corpus::foreign_ca_with_name(c.1.clone(), &ca_z.spki);
+            out.digest = fnv(&ca_der);
+            out.transitions = 2;
+            let p = match guarded(|| rcgen::CertificateParams::from_ca_cert_der(&ca_der.clone().into())) {
+                Err(pn) => {
+                    out.findings.push(Finding::new("IMPORT-PANIC", "from_ca_cert_der", pn));
+                    return out;
+                }
+                Ok(Err(_)) => return out,
+                Ok(Ok(p)) => p,
+            };
+            let r = guarded(|| {
+                let ca = p.self_signed(&ca_kp)?;
+                let leaf = to_params(&leaf_state(&KeyIdSpec::Sha256)).unwrap().signed_by(&leaf_kp, &ca, &ca_kp)?;
+                Ok::<_, rcgen::Error>((ca.der().to_vec(), leaf.der().to_vec()))
+            });
+            match r {
+                Ok(Ok((ca2, leaf))) => {
+                    // positional: the original Name must occur in the leaf (as issuer) and twice in the re-issued CA
+                    let occurs = |hay: &[u8]| hay.windows(c.1.len()).filter(|w| *w == c.1.as_slice()).count();
+                    if occurs(&leaf) < 1 {
+                        out.findings.push(Finding::new("CHAIN-ISSUER-NAME-MISMATCH", "tbs.issuer", "the leaf issued under the imported CA does not carry the original CA subject byte for byte"));
+                    }
+                    if occurs(&ca2) < 2 {
+                        out.findings.push(Finding::new("CHAIN-ISSUER-NAME-MISMATCH", "re-issued CA", "the re-issued CA does not carry the original subject byte for byte as subject and issuer"));
+                    }
+                }
+                Ok(Err(_)) => {}
+                Err(pn) => out.findings.push(Finding::new("IMPORT-THEN-ISSUE-PANICS", "signed_by", pn)),
+            }
+            out
+        });
+        rep.add(sec);
+    }
     // (c) CA certificates generated by OpenSSL's own builder, then imported
     {
         use openssl::asn1::{Asn1Integer, Asn1Time, Asn1Type};
